@@ -318,14 +318,45 @@ class TrErr(L.TrLife):
                     and len(s.value.args) == 1 and not s.value.keywords):
                 name = s.value.func.value.id
                 key = ast.unparse(s.value.args[0])
-                for pat, lean in self.t.get('task_generators', ()):
-                    if pat == key:
-                        env2 = dict(env)
-                        env2[name] = (name, 'tsklist')
-                        return (f'{pad}M.bind ({lean.format(P=P)}) fun new_ =>\n'
-                                f'{pad}let {name} := {env[name][0]} ++ new_\n' + self.block(rest, env2, fall, ind, live))
+                lean = self.task_generator(s.value.args[0], env)
+                if lean is not None:
+                    env2 = dict(env)
+                    env2[name] = (name, 'tsklist')
+                    return (f'{pad}M.bind ({lean}) fun new_ =>\n'
+                            f'{pad}let {name} := {env[name][0]} ++ new_\n' + self.block(rest, env2, fall, ind, live))
                 raise self.U('extend with ' + key[:100])
         return super().block(stmts, env, fall, ind, live)
+
+    def task_generator(self, g, env):
+        """`asyncio.create_task(c, name=<text>) for [i,] c in [enumerate(]<coroutines>[, start=k)]`: one task per
+        coroutine, in the order of the coroutines (the index is only used in the name) -> the declared primitive"""
+        if 'sup_tasks' not in self.t or not isinstance(g, ast.GeneratorExp) or len(g.generators) != 1:
+            return None
+        gen = g.generators[0]
+        if gen.ifs or gen.is_async:
+            return None
+        it, tgt = gen.iter, gen.target
+        if (isinstance(it, ast.Call) and isinstance(it.func, ast.Name) and it.func.id == 'enumerate' and len(it.args) == 1
+                and all(k.arg == 'start' and isinstance(k.value, ast.Constant) and isinstance(k.value.value, int)
+                        for k in it.keywords)
+                and isinstance(tgt, ast.Tuple) and len(tgt.elts) == 2 and all(isinstance(e, ast.Name) for e in tgt.elts)):
+            src, idx, var = it.args[0], tgt.elts[0].id, tgt.elts[1].id
+        elif isinstance(tgt, ast.Name):
+            src, idx, var = it, None, tgt.id
+        else:
+            return None
+        if not (isinstance(src, ast.Name) and env.get(src.id, (None, None))[1] == 'corolist') or idx == var:
+            return None
+        e = g.elt
+        if not (isinstance(e, ast.Call) and D.path_or_none(e.func) == 'asyncio.create_task' and len(e.args) == 1
+                and isinstance(e.args[0], ast.Name) and e.args[0].id == var):
+            return None
+        for k in e.keywords:
+            # the task's name: a text whose holes are the loop variables (evaluating it cannot do anything)
+            if k.arg != 'name' or not is_text(k.value) or not all(isinstance(h, ast.Name) and h.id in (idx, var)
+                                                                  for h in holes(k.value)):
+                return None
+        return self.t['sup_tasks'].format(P=self.P, l=env[src.id][0])
 
     def for_(self, s, rest, env, fall, ind, live):
         """lists of tasks / of (number, task) pairs; everything else as in TrLife"""
@@ -619,8 +650,7 @@ def run_target(api):
         atoms={'get_circuit()': ('()', 'circ')},
         context_calls=[('_TerminatingSignal', ('ifexp', 'signal.SIGTERM'), '{P}.sigEnter {c}', '{P}.sigExit')],
         create_task={'circuit.run_forever()': ('{P}.createSimtask', 'tsk')},
-        task_generators=[("(asyncio.create_task(coro, name=f'edzed: supporting task #{i}') "
-                          "for i, coro in enumerate(coroutines, start=1))", '{P}.createSupTasks coroutines')],
+        sup_tasks='{P}.createSupTasks {l}',
         effect_texts=[('asyncio.sleep(0)', '{P}.sleep0', 'unit')],
         wait_first='{P}.waitFirst {x}',
         methods=[('tsk', 'done', [], '{P}.taskDone st {x}', 'bool')],
